@@ -1663,6 +1663,12 @@ func (p *Parser) evaluateSwitch(ctx context) (Statement, error) {
 	nextToken = p.peek()
 	defaultSet := false
 
+	// Blank and comment-only lines are allowed before the first case.
+	for nextToken.Type() == lexer.NEWLINE {
+		p.eat()
+		nextToken = p.peek()
+	}
+
 	// While switch has not been terminated, evaluate cases.
 	for nextToken.Type() != lexer.CLOSING_CURLY_BRACKET {
 		var compareExpr Expression
